@@ -178,6 +178,8 @@ let run_sim () =
   let drv = match next () with
     | "run" -> `Run (nint ())
     | "steps" -> `Steps (nint ())
+    | "mixed" -> let n = nint () in let fuel = nint () in `Mixed (n, fuel)
+    | "runrun" -> `RunRun (nint ())
     | t -> failwith ("driver: " ^ t) in
   let show_exec = (match peek () with "SHOWEXEC" -> ignore (next ()); true | _ -> false) in
   expect "SCRIPT";
@@ -198,6 +200,31 @@ let run_sim () =
        List.iter (print_item show_exec) items;
        pf "end %s iter %d draws %d\n" (if fin then (if s1.k_aborted then "aborted" else "done") else "outoffuel")
          (int_of_nat s1.k_iter) (int_of_nat s1.k_h.s_cursor)
+   | `RunRun fuel ->
+       let ((s1, items), fin) = k_run fl hk kc (nat_of_int fuel) s0 in
+       List.iter (print_item show_exec) items;
+       let ((s2, items2), fin2) = if s1.k_aborted then ((s1, []), true) else k_run fl hk kc (nat_of_int fuel) s1 in
+       List.iter (print_item show_exec) items2;
+       pf "end %s iter %d draws %d\n" (if fin && fin2 then (if s2.k_aborted then "aborted" else "done") else "outoffuel")
+         (int_of_nat s2.k_iter) (int_of_nat s2.k_h.s_cursor)
+   | `Mixed (n, fuel) ->
+       let s = ref s0 in
+       let k = ref 0 in
+       while !k < n && not !s.k_aborted do
+         incr k;
+         let ((s1, items), r) = k_step fl hk kc !s in
+         List.iter (print_item show_exec) items;
+         pf "ret %s\n" (if s1.k_aborted then "raised" else if r then "true" else "false");
+         s := s1
+       done;
+       if !s.k_aborted then
+         pf "end aborted iter %d draws %d\n" (int_of_nat !s.k_iter) (int_of_nat !s.k_h.s_cursor)
+       else begin
+         let ((s1, items), fin) = k_run fl hk kc (nat_of_int fuel) !s in
+         List.iter (print_item show_exec) items;
+         pf "end %s iter %d draws %d\n" (if fin then (if s1.k_aborted then "aborted" else "done") else "outoffuel")
+           (int_of_nat s1.k_iter) (int_of_nat s1.k_h.s_cursor)
+       end
    | `Steps n ->
        let s = ref s0 in
        let k = ref 0 in
